@@ -203,6 +203,10 @@ def b_sources(rng, spec, ctx):
     if spec.get("role") == "est":
         mix = np.eye(nsrc) + 0.3 * g.randn(nsrc, nsrc)
         src = mix.dot(src) + 0.1 * g.randn(nsrc, nsampl)
+    if spec.get("dropout"):
+        # drop-out: one source is exactly silent over the first half of the stream (silent windows
+        # for the framewise functions; the stream as a whole stays non-silent)
+        src[rng.randrange(nsrc), : nsampl // 2 + 8] = 0.0
     img = np.stack([src * (1.0 + 0.2 * c) for c in range(nchan)], axis=-1)
     return {"src": np.ascontiguousarray(src), "img": np.ascontiguousarray(img)}
 
